@@ -121,6 +121,30 @@ func runC12(o *Options) *Result {
 			res.Sample(map[string]any{"tags": strings.Join(tags, " "), "mutation": how, "accepted": accepted, "parse_err": po.Err}, 8)
 		}
 	}
+	// straight nests of every depth up to 24 in three rotations of the block kinds (a bound on the
+	// nesting depth somewhere in the parser shows only beyond it), each also with its last and its
+	// middle closer removed
+	kinds := [][2]string{{"if", "endif"}, {"for", "endfor"}, {"switch", "endswitch"}, {"forr", "endfor"}}
+	for rot := 0; rot < 3; rot++ {
+		for depth := 1; depth <= 24; depth++ {
+			var open, closeT []string
+			for d := 0; d < depth; d++ {
+				k := kinds[(d+rot)%len(kinds)]
+				open = append(open, k[0])
+				if k[0] == "switch" {
+					open = append(open, "case")
+				}
+				closeT = append([]string{k[1]}, closeT...)
+			}
+			sk := append(append(append([]string(nil), open...), "leaf"), closeT...)
+			check(sk, "deep-nest")
+			check(sk[:len(sk)-1], "deep-nest-deletion")
+			mid := len(open) + 1 + depth/2
+			if mid < len(sk) {
+				check(append(append([]string(nil), sk[:mid]...), sk[mid+1:]...), "deep-nest-deletion")
+			}
+		}
+	}
 	for i := 0; i < n; i++ {
 		sk := genSkeleton(rng, 1+rng.Intn(4))
 		check(sk, "well-nested")
